@@ -120,9 +120,23 @@ C01_LoopBinCtx == {<<Loop(q[1], q[2], f, Or(x, y)), z>> : q \in QuantCore \cup {
 C01_AtEnd == {<<x, n>> : x \in {La, Cls("any"), Lab}, n \in InLeaves \cup {NotLit(<<ba>>), NotCls("digit"), NotCls("whitespace"), Cls("any"), CiLit(<<bA>>)}}
                \cup {<<x, n, Anc("fileend")>> : x \in {La, Cls("any")}, n \in InLeaves}
 
+(* thorough tier: nesting depth 3, thinned to one representative per         *)
+(* quantifier family at the outermost level                                 *)
+QuantRep == { <<0, 1>>, <<0, -1>>, <<1, -1>>, <<1, 2>> }
+Tiny == {La, Cls("any"), Lab}
+C01_Deep ==
+  LET L1 == {Loop(q[1], q[2], f, x) : q \in QuantRep, f \in BOOLEAN, x \in Tiny}
+      G2 == {Grp(<<x, l>>) : x \in Tiny, l \in L1} \cup {Grp(<<l, x>>) : x \in Tiny, l \in L1}
+              \cup {Grp(<<Or(x, Grp(<<l>>))>>) : x \in Tiny, l \in L1} \cup {Grp(<<Or(Grp(<<l>>), x)>>) : x \in Tiny, l \in L1}
+  IN {<<Loop(q[1], q[2], f, g)>> : q \in QuantRep, f \in BOOLEAN, g \in G2}
+     \cup {<<Loop(q[1], q[2], f, g), z>> : q \in {<<0, -1>>, <<1, 2>>}, f \in BOOLEAN, g \in G2, z \in {La, Lb}}
+     \cup {<<Or(g, Grp(<<h, La>>))>> : g \in G2, h \in {Grp(<<l>>) : l \in L1}}
+     \cup {<<Sub("s", <<x, Loop(q[1], q[2], f, Grp(<<Or(Grp(<<Ref("s")>>), y)>>))>>), z>> : x \in Tiny, y \in Tiny, z \in {La, Lb}, q \in {<<0, 1>>, <<0, 2>>}, f \in BOOLEAN}
+
 C01_Bodies(tier) ==
   C01_Single \cup C01_Loops \cup C01_Binary \cup C01_LoopBin \cup C01_BinLoop
     \cup C01_Nested \cup C01_Context \cup C01_Subs \cup C01_Caps \cup C01_LoopBinCtx \cup C01_AtEnd
+    \cup (IF tier = "thorough" THEN C01_Deep ELSE {})
 
 (* global patterns with and without predicate                               *)
 PredLenAtLeast(n) == <<[k |-> "ret", e |-> [k |-> "bin", op |-> ">=", l |-> [k |-> "var", name |-> "matchLength"], r |-> [k |-> "num", v |-> n]]]>>
